@@ -1,5 +1,6 @@
 // sim/harness/exec.cc — deterministic executor of simbus plans + oracle comparison.
 #include <stdio.h>
+#include <stdlib.h>
 #include <string.h>
 
 #include <algorithm>
@@ -115,6 +116,17 @@ simk::IoProfile profile_from(const Step &s, size_t first) {
 
 Exec::Exec(const core::Plan &p, bool log) : plan(p), w(tr, p.seed) {
   tr.reset(log);
+  // listed known findings (the driver passes the ids from known_findings.json)
+  if (const char *kn = getenv("SIM_KNOWN")) {
+    std::string s = kn;
+    size_t i = 0;
+    while (i <= s.size()) {
+      size_t j = s.find(',', i);
+      if (j == std::string::npos) j = s.size();
+      if (j > i) md.known.insert(s.substr(i, j - i));
+      i = j + 1;
+    }
+  }
 }
 
 int Exec::pick(int a) const {
@@ -142,9 +154,6 @@ void Exec::on_dispatch(int ci, DBusConnection *conn, DBusMessage *msg) {
   // the previous event is complete now: read what it left open before anything else changes
   resolve_choices();
   if (ci < 0) return;
-  // unique names clients have learnt so far (from their own Hello replies)
-  for (auto &cl : w.clients)
-    if (!cl.unique.empty() && (size_t)cl.idx < md.uniq.size() && md.uniq[(size_t)cl.idx].empty()) md.uniq[(size_t)cl.idx] = cl.unique;
   if (dbus_message_is_signal(msg, "org.freedesktop.DBus.Local", "Disconnected")) {
     tr.ev("H2 c%d disconnected", ci);
     md.now_us = K->now_us;
@@ -370,7 +379,21 @@ std::vector<int> Exec::actual_queue(const std::string &name) {
   return w.queue_order(name);
 }
 
+// Bind the model's symbolic unique names to the text the bus chose (white-box read right after the
+// Hello was processed).  What each client is *told* is compared against this binding by the oracle.
+void Exec::sync_names() {
+  for (size_t i = 0; i < md.conns.size(); i++) {
+    if (!md.conns[i].hello || !md.uniq[i].empty()) continue;
+    std::string n = w.bus_side_name((int)i);
+    if (n.empty()) continue;
+    if (n[0] != ':') fail("oracle:C03:unique-name-form", "c%zu was given the unique name '%s'", i, n.c_str());
+    if (!ever_names.insert(n).second) fail("oracle:C03:unique-name-reused", "unique name %s was given to a second connection", n.c_str());
+    md.uniq[i] = n;
+  }
+}
+
 void Exec::resolve_choices() {
+  sync_names();
   for (auto &ch : pending_choices) {
     std::vector<int> actual = actual_queue(ch.name);
     bool ok = false;
@@ -399,6 +422,20 @@ static std::string prop_of_observed(const wire::Msg &o) {
   return "C05";
 }
 
+bool Exec::take_floating(int ci, const wire::Msg &o) {
+  std::vector<bm::Exp> &f = md.floating[(size_t)ci];
+  for (size_t i = 0; i < f.size(); i++) {
+    std::string why;
+    if (bm::satisfies(md, f[i], o, &why)) {
+      counters["oracle_items_matched"]++;
+      counters["matched:" + f[i].prop]++;
+      f.erase(f.begin() + (long)i);
+      return true;
+    }
+  }
+  return false;
+}
+
 void Exec::compare_client(int ci) {
   bw::Client &c = w.C(ci);
   bm::Conn &k = md.conns[(size_t)ci];
@@ -425,10 +462,15 @@ void Exec::compare_client(int ci) {
         for (size_t i = 0; i < g.items.size() && hit < 0; i++) {
           const bm::Exp &e = g.items[i];
           if (used[i] || e.optional != (pass == 1)) continue;
-          if (e.last && !e.optional && required_left > 1) continue;
+          if (e.last) {
+            bool pre_left = false;
+            for (size_t j = 0; j < g.items.size(); j++) if (!used[j] && g.items[j].pre && !g.items[j].optional) pre_left = true;
+            if (pre_left) continue;
+          }
           if (bm::satisfies(md, e, o, &why)) hit = (int)i;
           else if (firstwhy.empty()) firstwhy = e.what + ": " + why;
         }
+      if (hit < 0 && take_floating(ci, o)) { cur++; continue; }
       if (hit < 0) {
         if (required_left == 0) break;   // o belongs to a later group
         std::string want;
@@ -450,6 +492,11 @@ void Exec::compare_client(int ci) {
     }
     q.pop_front();
   }
+  while (cur < c.got.size() && take_floating(ci, c.got[cur].m)) cur++;
+  if (!md.floating[(size_t)ci].empty() && cur >= c.got.size()) {
+    const bm::Exp &e = md.floating[(size_t)ci].front();
+    fail("oracle:" + e.prop + ":missing-message", "c%d never received [%s: %s] (system quiescent, faults off)", ci, e.what.c_str(), e.m.repr().c_str());
+  }
   if (cur < c.got.size()) {
     const wire::Msg &o = c.got[cur].m;
     fail("oracle:" + prop_of_observed(o) + ":unexpected-message", "c%d received %s which the model does not predict", ci, o.repr().c_str());
@@ -461,13 +508,12 @@ void Exec::check_point(bool final) {
   (void)final;
   w.quiesce();
   resolve_choices();
-  // bind unique names from each client's own Hello reply
+  // what each client was told must be what the bus holds, and pairwise distinct
   std::set<std::string> seen;
   for (auto &c : w.clients) {
     if (c.unique.empty()) continue;
     if (c.unique[0] != ':') fail("oracle:C03:unique-name-form", "c%d was given the unique name '%s'", c.idx, c.unique.c_str());
     if (!seen.insert(c.unique).second) fail("oracle:C03:unique-name-reused", "unique name %s was given to two connections", c.unique.c_str());
-    if ((size_t)c.idx < md.uniq.size()) md.uniq[(size_t)c.idx] = c.unique;
   }
   for (auto &c : w.clients) {
     if (!c.connected) continue;
@@ -507,6 +553,7 @@ core::RunResult Exec::run() {
   res.counters = counters;
   for (auto &kv : w.counters) res.counters[kv.first] += kv.second;
   for (auto &kv : md.probes) res.counters["probe:" + kv.first] += kv.second;
+  for (auto &kv : md.finding_hits) res.counters["finding:" + kv.first] += kv.second;
   uint64_t faults = 0;
   for (auto &kv : K->stats.faults) { res.counters["fault:" + kv.first] += kv.second; faults += kv.second; }
   res.counters["sut_bytes_read"] = K->stats.bytes_sut_read;
